@@ -599,6 +599,7 @@ func ruleCacheStruct(prefix string) func(r *Run) {
 		// --- bound
 		r.Floor(bound, 3)
 		var guard *ssa.If
+		overOnFalse := false
 		for _, b := range s.Blocks {
 			iff, ok := b.Instrs[len(b.Instrs)-1].(*ssa.If)
 			if !ok {
@@ -616,7 +617,13 @@ func ruleCacheStruct(prefix string) func(r *Run) {
 			if (isLen(bo.X) && isLoadOfField(bo.Y, cm.sizeF)) || (isLen(bo.Y) && isLoadOfField(bo.X, cm.sizeF)) {
 				guard = iff
 				// over-capacity edge
-				okOp := (isLen(bo.X) && bo.Op == token.GTR) || (isLen(bo.Y) && bo.Op == token.LSS)
+				op := bo.Op
+				if isLen(bo.Y) {
+					op = flipOp(op)
+				}
+				// "Len() > size" evicts on the true edge, the guard-clause spelling "Len() <= size" on the false edge
+				okOp := op == token.GTR || op == token.LEQ
+				overOnFalse = op == token.LEQ
 				r.Check(bound, "(*cachedRoutes).Set:capacity comparison", w.InstrPos(iff), okOp, map[bool]string{true: "eviction when Len() > size", false: "the capacity comparison is not 'Len() > size' (capacity off by one or never evicting)"}[okOp])
 			}
 		}
@@ -637,7 +644,7 @@ func ruleCacheStruct(prefix string) func(r *Run) {
 			c0, pos := stripNot(guard.Cond)
 			_ = c0
 			over := guard.Block().Succs[0]
-			if !pos {
+			if pos == overOnFalse {
 				over = guard.Block().Succs[1]
 			}
 			rem := 0
